@@ -1,6 +1,7 @@
 package rules
 
 import (
+	"go/token"
 	"go/types"
 	"strings"
 
@@ -32,6 +33,28 @@ func (c *Ctx) nilSafeMethods(pkgRel, typ string) map[*ssa.Function]bool {
 // stateNonNilAt: instruction `in` of function f is dominated by the non-nil edge of a
 // test of Session.state against nil inside f.
 func stateNonNilAt(f *ssa.Function, in ssa.Instruction, fld *types.Var) bool {
+	// conditions implied at the instruction, through &&-phis and boolean predicate helpers
+	for _, fact := range engine.FactsDominating(f, in.Block(), func(g *ssa.Function) bool {
+		return strings.HasPrefix(engine.PkgPathOf(g), "github.com/ProtonMail/gluon")
+	}) {
+		bin, ok := fact.Cond.(*ssa.BinOp)
+		if !ok || (bin.Op != token.EQL && bin.Op != token.NEQ) {
+			continue
+		}
+		var other ssa.Value
+		if engine.IsNilConst(bin.Y) {
+			other = bin.X
+		} else if engine.IsNilConst(bin.X) {
+			other = bin.Y
+		} else {
+			continue
+		}
+		if ld, ok := other.(*ssa.UnOp); ok && fieldAddrIs(ld.X, fld) {
+			if (bin.Op == token.NEQ) == fact.Truth {
+				return true
+			}
+		}
+	}
 	for _, b := range f.Blocks {
 		iff := engine.IfOf(b)
 		if iff == nil {
@@ -47,6 +70,30 @@ func stateNonNilAt(f *ssa.Function, in ssa.Instruction, fld *types.Var) bool {
 		} else if engine.IsNilConst(bin.X) {
 			other = bin.Y
 		} else {
+			continue
+		}
+		// `if err := s.requireX(); err != nil { return err }` where requireX returns nil only with s.state != nil
+		if call := errorCallOf(other); call != nil && depthGuard < 2 {
+			if g := call.Call.StaticCallee(); g != nil && len(g.Blocks) > 0 && len(call.Call.Args) > 0 && len(f.Params) > 0 && sameRecv(call.Call.Args[0], f) {
+				all, any := true, false
+				depthGuard++
+				for _, r := range engine.Returns(g) {
+					if lr := engine.LastResult(r); lr != nil && engine.IsNilConst(lr) {
+						any = true
+						if !stateNonNilAt(g, r, fld) {
+							all = false
+						}
+					}
+				}
+				depthGuard--
+				nilIx := 1
+				if bin.Op.String() == "==" {
+					nilIx = 0
+				}
+				if any && all && engine.EdgeDominates(b, nilIx, in.Block()) {
+					return true
+				}
+			}
 			continue
 		}
 		ld, ok := other.(*ssa.UnOp)
@@ -239,84 +286,179 @@ func c18jail(c *Ctx) {
 	if f == nil {
 		return
 	}
-	var auth, wait ssa.Instruction
-	var afterFunc, wgAdd *ssa.Call
-	cntFld := c.fieldOf("internal/backend", "Backend", "loginErrorCount")
+	// getUserID and the Backend methods it calls directly are looked at as one unit: an instruction inside
+	// a helper is represented in f by the helper's call site.
+	type located struct {
+		in     ssa.Instruction // the instruction itself
+		site   ssa.Instruction // where it happens in f (itself, or the call of the helper that contains it)
+		fn     *ssa.Function
+		uncond bool // for helper instructions: executed on every path through the helper
+	}
+	var all []located
+	addFrom := func(g *ssa.Function, site ssa.Instruction) {
+		for _, cs := range engine.Calls(g) {
+			if cs.Instr.Parent() != g {
+				continue
+			}
+			s := site
+			un := true
+			if s == nil {
+				s = cs.Instr
+			} else {
+				for _, r := range engine.Returns(g) {
+					if !cs.Instr.Block().Dominates(r.Block()) {
+						un = false
+					}
+				}
+			}
+			all = append(all, located{in: cs.Instr, site: s, fn: g, uncond: un})
+		}
+	}
+	addFrom(f, nil)
 	for _, cs := range engine.Calls(f) {
-		cc := cs.Common()
+		if g := cs.Common().StaticCallee(); g != nil && cs.Instr.Parent() == f && len(g.Blocks) > 0 {
+			if rn := engine.RecvNamed(g); rn != nil && rn.Obj().Name() == "Backend" {
+				addFrom(g, cs.Instr)
+			}
+		}
+	}
+	var auth, wait, afterFunc, wgAdd *located
+	cntFld := c.fieldOf("internal/backend", "Backend", "loginErrorCount")
+	for i := range all {
+		l := &all[i]
+		cc := l.in.(ssa.CallInstruction).Common()
 		if cc.IsInvoke() && cc.Method.Name() == "Authorize" {
-			auth = cs.Instr
+			auth = l
 		}
 		if sc := cc.StaticCallee(); sc != nil {
 			switch {
 			case sc.Name() == "Wait" && engine.RecvNamed(sc) != nil && engine.RecvNamed(sc).Obj().Name() == "WaitGroup":
-				wait = cs.Instr
+				wait = l
 			case sc.Name() == "Add" && engine.RecvNamed(sc) != nil && engine.RecvNamed(sc).Obj().Name() == "WaitGroup":
-				wgAdd, _ = cs.Instr.(*ssa.Call)
+				wgAdd = l
 			case sc.Name() == "AfterFunc":
-				afterFunc, _ = cs.Instr.(*ssa.Call)
+				afterFunc = l
 			}
 		}
 	}
-	R.Check(auth != nil && wait != nil && engine.InstrDominates(wait, auth), "R18.3", c.name(f)+"|wait-before-authorize", P.Pos(f.Pos()), "loginWG.Wait() precedes every credential check", "credentials are checked without first waiting for the login jail to end")
+	R.Check(auth != nil && wait != nil && wait.fn == f && engine.InstrDominates(wait.site, auth.site) && wait.site != auth.site, "R18.3", c.name(f)+"|wait-before-authorize", P.Pos(f.Pos()), "loginWG.Wait() precedes every credential check", "credentials are checked without first waiting for the login jail to end")
 	// user id only on the true edge of Authorize
 	if auth != nil {
-		call := auth.(*ssa.Call)
-		okRet := true
-		for _, ret := range engine.Returns(f) {
-			if len(ret.Results) != 2 {
-				continue
-			}
-			if engine.IsNilConst(engine.ResultOf(ret, 1)) {
-				// success: must be dominated by Authorize true edge
-				dom := false
-				for _, r := range *call.Referrers() {
-					if iff, ok := r.(*ssa.If); ok && engine.EdgeDominates(iff.Block(), 0, ret.Block()) {
-						dom = true
-					}
+		call := auth.in.(*ssa.Call)
+		authTrueDominates := func(blk *ssa.BasicBlock) bool {
+			for _, r := range *call.Referrers() {
+				if iff, ok := r.(*ssa.If); ok && engine.EdgeDominates(iff.Block(), 0, blk) {
+					return true
 				}
-				if !dom {
+			}
+			return false
+		}
+		okRet := true
+		if auth.fn == f {
+			for _, ret := range engine.Returns(f) {
+				if len(ret.Results) != 2 {
+					continue
+				}
+				if engine.IsNilConst(engine.ResultOf(ret, 1)) {
+					if !authTrueDominates(ret.Block()) {
+						okRet = false
+					}
+				} else if s, isStr := engine.ConstString(engine.ResultOf(ret, 0)); !isStr || s != "" {
 					okRet = false
 				}
-			} else if s, isStr := engine.ConstString(engine.ResultOf(ret, 0)); !isStr || s != "" {
-				okRet = false
+			}
+		} else {
+			// helper g returns (id, ok): ok may be true only under Authorize's true edge; f returns an id only under ok
+			g := auth.fn
+			for _, r := range engine.Returns(g) {
+				if len(r.Results) != 2 {
+					okRet = false
+					continue
+				}
+				if bv, isB := engine.ConstBool(engine.ResultOf(r, 1)); isB && !bv {
+					continue
+				}
+				if !authTrueDominates(r.Block()) {
+					okRet = false
+				}
+			}
+			hcall, _ := auth.site.(*ssa.Call)
+			var okIf []*ssa.If
+			if hcall != nil {
+				for _, r := range *hcall.Referrers() {
+					if ex, ok := r.(*ssa.Extract); ok && ex.Index == 1 {
+						for _, rr := range *ex.Referrers() {
+							if iff, ok := rr.(*ssa.If); ok {
+								okIf = append(okIf, iff)
+							}
+						}
+					}
+				}
+			}
+			for _, ret := range engine.Returns(f) {
+				if len(ret.Results) != 2 {
+					continue
+				}
+				if engine.IsNilConst(engine.ResultOf(ret, 1)) {
+					dom := false
+					for _, iff := range okIf {
+						if engine.EdgeDominates(iff.Block(), 0, ret.Block()) {
+							dom = true
+						}
+					}
+					if !dom {
+						okRet = false
+					}
+				} else if s, isStr := engine.ConstString(engine.ResultOf(ret, 0)); !isStr || s != "" {
+					okRet = false
+				}
 			}
 		}
-		R.Check(okRet, "R18.3", c.name(f)+"|id-only-if-authorized", P.Pos(auth.Pos()), "a user id is returned only when connector.Authorize accepted the credentials", "getUserID can return a user id (or a nil error) on a path where connector.Authorize did not return true: wrong credentials authenticate")
+		R.Check(okRet, "R18.3", c.name(f)+"|id-only-if-authorized", P.Pos(auth.in.Pos()), "a user id is returned only when connector.Authorize accepted the credentials", "getUserID can return a user id (or a nil error) on a path where connector.Authorize did not return true: wrong credentials authenticate")
 	}
 	// jail branch
 	okJail := false
 	why := "no branch at count == maxLoginAttempts that arms the jail"
-	if afterFunc != nil && wgAdd != nil {
-		// branch condition: atomic.AddInt32(&loginErrorCount,1) == const
+	if afterFunc != nil && wgAdd != nil && afterFunc.uncond && wgAdd.uncond {
+		// branch condition: atomic.AddInt32(&loginErrorCount,1) ==/!= const
 		for _, b := range f.Blocks {
 			iff := engine.IfOf(b)
 			if iff == nil {
 				continue
 			}
 			bin, ok := iff.Cond.(*ssa.BinOp)
-			if !ok || bin.Op.String() != "==" {
+			if !ok || (bin.Op != token.EQL && bin.Op != token.NEQ) {
 				continue
 			}
-			if _, isK := bin.Y.(*ssa.Const); !isK {
+			var cnt ssa.Value
+			if _, isK := bin.Y.(*ssa.Const); isK {
+				cnt = bin.X
+			} else if _, isK := bin.X.(*ssa.Const); isK {
+				cnt = bin.Y
+			} else {
 				continue
 			}
-			call, ok := bin.X.(*ssa.Call)
+			call, ok := cnt.(*ssa.Call)
 			if !ok || call.Call.StaticCallee() == nil || !strings.HasPrefix(call.Call.StaticCallee().Name(), "Add") || !fieldAddrIs(call.Call.Args[0], cntFld) {
 				continue
 			}
-			if engine.EdgeDominates(b, 0, afterFunc.Block()) && engine.EdgeDominates(b, 0, wgAdd.Block()) {
+			eqEdge := 0
+			if bin.Op == token.NEQ {
+				eqEdge = 1
+			}
+			if engine.EdgeDominates(b, eqEdge, afterFunc.site.Block()) && engine.EdgeDominates(b, eqEdge, wgAdd.site.Block()) {
 				okJail = true
 			}
 		}
+		afc := afterFunc.in.(*ssa.Call)
 		// duration is loginJailTime
 		jt := c.fieldOf("internal/backend", "Backend", "loginJailTime")
-		if ld, ok := afterFunc.Call.Args[0].(*ssa.UnOp); !ok || !fieldAddrIs(ld.X, jt) {
+		if ld, ok := afc.Call.Args[0].(*ssa.UnOp); !ok || !fieldAddrIs(ld.X, jt) {
 			okJail, why = false, "the jail timer does not use Backend.loginJailTime"
 		}
 		// callback: Done + counter reset
 		done, reset := false, false
-		switch cb := afterFunc.Call.Args[1].(type) {
+		switch cb := afc.Call.Args[1].(type) {
 		case *ssa.MakeClosure:
 			fn := cb.Fn.(*ssa.Function)
 			if fn.Synthetic != "" {
@@ -396,4 +538,33 @@ func (c *Ctx) afterNilSafeReceive(f *ssa.Function, at ssa.Instruction, stateFld 
 		}
 	}
 	return false
+}
+
+var depthGuard int
+
+// errorCallOf: v is the error result of a call (directly or as the last tuple component).
+func errorCallOf(v ssa.Value) *ssa.Call {
+	if !isErrorType(v.Type()) {
+		return nil
+	}
+	switch t := v.(type) {
+	case *ssa.Call:
+		return t
+	case *ssa.Extract:
+		call, _ := t.Tuple.(*ssa.Call)
+		return call
+	}
+	return nil
+}
+
+// sameRecv: v is f's receiver (first parameter), possibly through the spill cell.
+func sameRecv(v ssa.Value, f *ssa.Function) bool {
+	root := f
+	for root.Parent() != nil {
+		root = root.Parent()
+	}
+	if len(root.Params) == 0 {
+		return false
+	}
+	return engine.AccessPath(v) == root.Params[0].Name()
 }
